@@ -1,6 +1,7 @@
 import DaeVerif.C17.ParserProofs
 import DaeVerif.C17.LexProofs
 import DaeVerif.C17.MergeProofs
+import DaeVerif.C17.TermProofs
 import DaeVerif.C17.ConfigProofs
 import DaeVerif.C17.DefaultsProofs
 /-! Helper lemmas for C17 live in `ParserProofs`, `LexProofs`, `MergeProofs`, `ConfigProofs`;
